@@ -65,11 +65,37 @@ def gen_case(R, tier):
     steps.append(st)
   return {"cls": "RoundRobinArbiterEn" if has_en else "RoundRobinArbiter", "nreqs": n,
           "sched": c.choice(SCHEDS), "sched_seed": c.getrandbits(32),
-          "hash_seed": R.sub_seed("hash"), "steps": steps}
+          "hash_seed": R.sub_seed("hash"), "steps": steps,
+          # the arbiter as a sub-component of a design that has 0..3 flip-flops of its own next to it
+          "wrap": R("wrap").choice([None, None, None, 0, 1, 2, 3])}
 
 
 def _viol(check, t, **kw):
   return {"check": check, "sig": {"check": check}, "detail": dict(cycle=t, **kw)}
+
+
+def make_wrapper(arb_cls, n, has_en, nregs):
+  from pymtl3 import Component, InPort, OutPort, Wire, mk_bits, Bits1, update_ff
+
+  class ArbWrap(Component):
+    def construct(s):
+      T = mk_bits(n)
+      s.reqs = InPort(T)
+      s.grants = OutPort(T)
+      s.arb = arb_cls(n)
+      s.arb.reqs //= s.reqs
+      s.grants //= s.arb.grants
+      if has_en:
+        s.en = InPort(Bits1)
+        s.arb.en //= s.en
+      s.hist = [Wire(T) for _ in range(nregs)]
+      if nregs:
+        @update_ff
+        def up_hist():
+          s.hist[0] <<= s.arb.grants
+          for i in range(nregs - 1):
+            s.hist[i + 1] <<= s.hist[i]
+  return ArbWrap()
 
 
 def run_case(case):
@@ -82,7 +108,10 @@ def run_case(case):
   has_en = case["cls"] == "RoundRobinArbiterEn"
   T = mk_bits(n)
   try:
-    top = getattr(arbiters, case["cls"])(n)
+    if case.get("wrap") is None:
+      top = getattr(arbiters, case["cls"])(n)
+    else:
+      top = make_wrapper(getattr(arbiters, case["cls"]), n, has_en, case["wrap"])
     top.elaborate()
     harness.prepare(top, case["sched"], case["sched_seed"])
     top.sim_reset()
